@@ -182,7 +182,8 @@ def worker(item):
         if plan.get("orders") and k == 0:
             for trio in (("T", "rho_crit", "C"), ("a", "tau", "v_free")):
                 for perm in itertools.permutations(trio):
-                    for sym, compact in (("SX", 0), ("SX", 2), ("MX", 1)):
+                    # ... also levels outside {0, 1, 2}: anything <= 0 means 'no aggregation'
+                    for sym, compact in (("SX", 0), ("SX", 2), ("MX", 1), ("SX", -1), ("MX", -3)):
                         check_one(spec, label, st, sym, compact, perm, vecs[:2], problems)
         st.outcome((spec.n, len(spec.links), len(problems) == 0))
         if len(st.samples) < 1 and len(spec.links) >= 2:
